@@ -160,6 +160,15 @@ class OrderLeg(object):
         fts = list(db.featuretypes())
         if sorted(fts) != sorted(set(r["featuretype"] for r in rows)) or len(fts) != len(set(fts)):
             return Failure("featuretypes() = %r" % fts, sig={"kind": "distinct"})
+        # a listing is not cut short by another listing started before it is finished
+        inter_s, inter_t = [], []
+        for sname in db.seqids():
+            inter_s.append(sname)
+            inter_t.append(sorted(db.featuretypes()))
+        pairs = list(zip(db.featuretypes(), db.featuretypes()))
+        if sorted(inter_s) != sorted(set(r["seqid"] for r in rows)) or any(t != sorted(set(r["featuretype"] for r in rows)) for t in inter_t) \
+                or len(pairs) != len(set(r["featuretype"] for r in rows)):
+            return Failure("interleaved seqids()/featuretypes() listings are incomplete: %r / %r" % (inter_s, pairs), sig={"kind": "distinct-interleaved"})
         sq = list(db.seqids())
         if sorted(sq) != sorted(set(r["seqid"] for r in rows)) or len(sq) != len(set(sq)):
             return Failure("seqids() = %r" % sq, sig={"kind": "distinct"})
